@@ -687,6 +687,13 @@ class TorchBackendProvider(BackendProvider):
         b_val = b.item() if isinstance(b, torch.Tensor) and b.ndim == 0 else (b.cpu().numpy() if isinstance(b, torch.Tensor) else b)
         return numpy.power(a_val, b_val)
 
+    def numeric_grad_input(self, x):
+        """Point handed to a function under numeric differentiation: a tensor in the precision of the
+        step (double where the device supports it), so that backend math functions accept it and the
+        difference quotient is not computed in single precision."""
+        x = numpy.ascontiguousarray(x, dtype=numpy.float64 if self.supports_float64() else numpy.float32)
+        return torch.from_numpy(x).to(self.device)
+
     def has_gradient(self, x) -> bool:
         """Check if x is tracking gradients."""
         return isinstance(x, torch.Tensor) and x.requires_grad
